@@ -14,6 +14,8 @@ Driver for the number model.  A number travels as three fields `value fd neg` (n
   num.parsedec <hex> <fd>-> ok value fd neg | err <class>   (ParseDecimal)
   num.asrange <hex|nil> <min> <max> -> ok <int> | err <class>   ((*Value).asRangeInt)
   num.addq n <i>         -> value fd neg               (addQuantum)
+  num.roundtrip n        -> panic | ok value fd neg | err <class>   (ParseInt(n.String()) for fd = 0, else ParseDecimal(n.String(), fd))
+  num.cmprow n m1 m2 ... -> per m four characters: Less(n,m) Equal(n,m) (1|0|p), then spec lt, spec eq (1|0)
   spec.less n m / spec.equal n m -> 1 | 0              (exact comparison of denotations)
   spec.int n             -> ok <int> | err             (exact conversion)
   spec.str n <hex>       -> 1 | 0   (the string is a literal `[-]digits[.digits]` denoting ⟦n⟧ with at most fd fraction digits)
@@ -50,7 +52,33 @@ def showON : Option Number → String
   | some n => "ok " ++ showNum n
   | none => "err"
 
+def obChar : Option Bool → Char
+  | none => 'p'
+  | some true => '1'
+  | some false => '0'
+
+def cmpRow (n : Number) : List String → List Char → Option (List Char)
+  | [], acc => some acc.reverse
+  | a :: b :: c :: rest, acc =>
+    match decNum a b c with
+    | some m =>
+      cmpRow n rest ((if decide (Spec.Number.eq n m) then '1' else '0') :: (if decide (Spec.Number.lt n m) then '1' else '0')
+        :: obChar (equal? n m) :: obChar (less? n m) :: acc)
+    | none => none
+  | _, _ => none
+
 def handle : List String → String
+  | "num.cmprow" :: a :: b :: c :: rest =>
+    match decNum a b c with
+    | some n => match cmpRow n rest [] with | some cs => String.ofList cs | none => "bad-op"
+    | none => "bad-op"
+  | ["num.roundtrip", a, b, c] =>
+    match decNum a b c with
+    | some n =>
+      match toStr? n with
+      | none => "panic"
+      | some s => showEN (if n.fd = 0 then parseInt s else parseDecimal s n.fd)
+    | _ => "bad-op"
   | ["num.less", a, b, c, d, e, f] =>
     match decNum a b c, decNum d e f with
     | some n, some m => showOB (less? n m)
